@@ -163,7 +163,7 @@ def _replay_file(a, repo):
     if rp["clause"].startswith("deadlock") or rp["clause"] == "longer":
       bad = rep["status"] in ("blocked", "hang"); what = rep.get("detail", "")[:300]
     else:
-      probs = _real_trace_ok(rep, run); bad = bool(probs); what = "; ".join(probs)
+      probs = _real_trace_ok(rep, run); bad = bool(probs) and rep["status"] == "ok"; what = "; ".join(probs)
     print("replay %s: status=%s %s" % (a.replay, rep["status"], what))
   if bad:
     print("VIOLATION property=C17 replay=%s" % a.replay); return 1
